@@ -48,6 +48,27 @@ def shapes_of(size, maxrank=3):
     return out
 
 
+def relayout(arr, layout):
+    """same logical array, different memory layout: 'F' Fortran-ordered copy, 'T' transposed view of a C array, 'S' strided view into a
+    larger buffer (every second element along the last axis).  Data and mask get the same layout."""
+    if layout == "C" or arr.ndim < 1:
+        return arr
+    def lay(x):
+        x = numpy.asarray(x)
+        if layout == "F":
+            return numpy.asfortranarray(x)
+        if layout == "T":
+            return numpy.ascontiguousarray(x.T).T
+        if layout == "S":
+            big = numpy.zeros(x.shape[:-1] + (2 * x.shape[-1],), dtype=x.dtype)
+            big[..., ::2] = x
+            return big[..., ::2]
+        raise ValueError(layout)
+    m = numpy.ma.getmask(arr)
+    out = numpy.ma.MaskedArray(lay(arr.data), mask=numpy.ma.nomask if m is numpy.ma.nomask else lay(m))
+    return out
+
+
 def mk_array(cells, shape=None, dtype="float", maskform="auto", payload=0):
     """cells: list of Fraction|int|float|None (None = missing).  maskform for arrays without missing cells:
     'nomask' | 'false' (explicit all-False mask).  payload: number stored beneath missing cells."""
@@ -164,7 +185,7 @@ def cell_equal(got, want, approx, tol=1e-9):
     return abs(float(got) - w) <= tol * max(1.0, abs(w))
 
 
-def compare(res, ref_cells, approx, shape):
+def compare(res, ref_cells, approx, shape, tol=1e-9):
     """-> list of (kind, message).  kinds: not-array, shape, mask-dropped, missing-lost, missing-extra, wrong-value"""
     issues = []
     if not isinstance(res, numpy.ndarray):
@@ -177,7 +198,7 @@ def compare(res, ref_cells, approx, shape):
             issues.append(("mask-dropped" if not is_ma else "missing-lost", "cell %d should be missing, got %r" % (i, g)))
         elif w is not None and g is None:
             issues.append(("missing-extra", "cell %d should be %s, got missing" % (i, w)))
-        elif not cell_equal(g, w, approx):
+        elif not cell_equal(g, w, approx, tol):
             issues.append(("wrong-value", "cell %d is %r, reference %s" % (i, g, float(w) if w is not None else None)))
         if len(issues) >= 3:
             break
@@ -206,7 +227,7 @@ def cell_inputs(cols, msg):
         return "?"
 
 
-def judge(pid, op, params, cols, res, shape, viols, tag, counters, V, ref=None, degenerate_ok=True):
+def judge(pid, op, params, cols, res, shape, viols, tag, counters, V, ref=None, degenerate_ok=True, tol=1e-9):
     """Compare one execution (res from execute()) with the reference.  Returns an outcome label.
     counters: dict with 'judged', 'unspecified' (cells).  Degenerate statistics (reference says "degenerate") only require an
     MPilot error or an all-missing result."""
@@ -244,7 +265,7 @@ def judge(pid, op, params, cols, res, shape, viols, tag, counters, V, ref=None, 
         viols.append(V("%s:%s:raised:%s" % (pid, op, error_name(res[1])), "%s %r raised %s: %s" % (op, params, error_name(res[1]), str(res[1])[:160].replace("\n", " ")), **tag))
         return "raised"
     bad = False
-    for kind, msg in compare(res[1], ref[1], ref[2], shape):
+    for kind, msg in compare(res[1], ref[1], ref[2], shape, tol):
         bad = True
         viols.append(V("%s:%s:%s" % (pid, op, kind), "%s n=%d %r: %s (inputs at that cell: %s)" % (op, len(cols), params, msg, cell_inputs(cols, msg)), **tag))
     return "bad" if bad else "ok"
